@@ -451,4 +451,126 @@ Proof.
         { rewrite RN in Hx. apply (B I x); auto. rewrite RS. apply in_or_app. right; right; auto. }
       * exact C.
 Qed.
+
+(* ---------- put / rm / notify / foreach, seen from an open iterator ---------- *)
+Lemma absent_key : forall s P k, GoodP s P -> GoodQ hf s ->
+  find_node v_fixed (h_heap s) (bucket s (bucket_ix hf s k)) k = Ok None -> ~ In k (lkeys s).
+Proof.
+  intros s P k G Q F Hk. unfold lkeys in Hk. apply in_map_iff in Hk. destruct Hk as [y [Ky Hy]].
+  generalize (find_node_spec _ _ _ _ (bucket_all_live s P _ G) F). intro NONE.
+  apply live_linked in Hy. destruct Hy as [Hy1 Hy2]. apply linked_bucket in Hy1. destruct Hy1 as [b1 Hy1].
+  generalize (q_place _ _ Q b1 y Hy1). rewrite Ky. intro Bq.
+  assert (b1 = bucket_ix hf s k) by (unfold bucket_ix, bix in *; lia). subst b1.
+  destruct (NONE y Hy1) as [m [M1 [M2|M2]]].
+  - rewrite (is_live_deref _ _ _ M1), M2 in Hy2. discriminate.
+  - rewrite (key_of_deref _ _ _ M1) in Ky. contradiction.
+Qed.
+
+Definition c_set_ins (c : cov) (b : bool) : cov := {| c_stable := c_stable c; c_seen := c_seen c; c_ins := c_ins c || b |}.
+Definition c_rm (c : cov) (k : key) : cov := {| c_stable := key_remove k (c_stable c); c_seen := c_seen c; c_ins := c_ins c |}.
+Definition c_see (c : cov) (k : key) : cov := {| c_stable := c_stable c; c_seen := k :: c_seen c; c_ins := c_ins c |}.
+
+Lemma cov_put : forall s P k x s' ns hi c, GoodP s P -> GoodQ hf s -> h_put v_fixed hf s k x = Ok (s', ns) ->
+  CovOne s hi c -> CovOne s' hi (c_set_ins c (negb (key_in k (lkeys s)))).
+Proof.
+  intros s P k x s' ns hi c G Q E CV. unfold h_put in E.
+  destruct (find_node v_fixed (h_heap s) (bucket s (bucket_ix hf s k)) k) as [r|] eqn:F; simpl in E; [|discriminate].
+  generalize (find_node_spec _ _ _ _ (bucket_all_live s P _ G) F). destruct r as [id|].
+  - intros [Hin [n [N1 [N2 N3]]]]. rewrite N1 in E. simpl in E. inversion E; subst. clear E.
+    assert (KL : key_in (hn_key n) (lkeys s) = true).
+    { apply key_in_iff. unfold lkeys. apply in_map_iff. exists id. split. apply key_of_deref; auto.
+      unfold live_ids. apply filter_In. split. eapply in_bucket_linked; eauto. rewrite (is_live_deref _ _ _ N1), N2. auto. }
+    rewrite KL. simpl. unfold c_set_ins. rewrite orb_false_r. destruct c. simpl.
+    apply cov_same_view; auto. eapply same_view_store; eauto.
+  - intros _. inversion E; subst. clear E.
+    assert (NK : ~ In k (lkeys s)) by (eapply absent_key; eauto).
+    assert (KL : key_in k (lkeys s) = false). { destruct (key_in k (lkeys s)) eqn:Z; auto. apply key_in_iff in Z. contradiction. }
+    rewrite KL. simpl. unfold c_set_ins. rewrite orb_true_r.
+    apply (cov_link s P _ (bucket_ix hf s k) k x hi c G); auto. apply bix_lt. apply (q_nb _ _ Q).
+Qed.
+
+Lemma cov_shrink_stable : forall s hi c k, CovOne s hi c -> CovOne s hi (c_rm c k).
+Proof.
+  intros s hi c k [A B C]. constructor; simpl; auto.
+  - intros x Hx Hk. apply key_remove_in in Hk. apply A; auto. apply Hk.
+  - intros k0 Hk. apply key_remove_in in Hk. apply C. apply Hk.
+Qed.
+
+Lemma cov_rm : forall s P k s' b ns hi c, GoodP s P -> GoodQ hf s -> h_rm v_fixed hf s k = Ok (s', b, ns) -> In hi P ->
+  CovOne s hi c -> CovOne s' hi (c_rm c k).
+Proof.
+  intros s P k s' bb ns hi c G Q E HP CV. unfold h_rm in E. set (b := bucket_ix hf s k) in *.
+  destruct (find_node v_fixed (h_heap s) (bucket s b) k) as [r|] eqn:F; simpl in E; [|discriminate].
+  generalize (find_node_spec _ _ _ _ (bucket_all_live s P _ G) F). destruct r as [id|].
+  2:{ intros _. inversion E; subst. apply cov_shrink_stable; auto. }
+  intros [Hin [n [N1 [N2 N3]]]]. rewrite N1 in E. simpl in E.
+  assert (Hl : In id (linked s)) by (eapply in_bucket_linked; eauto).
+  assert (Hlt : id < length (h_heap s)) by (eapply deref_lt; eauto).
+  set (n1 := {| hn_key := hn_key n; hn_val := hn_val n; hn_ref := hn_ref n; hn_removed := true; hn_subs := hn_subs n |}) in *.
+  set (s1 := set_heap s (store (h_heap s) id n1)) in *.
+  destruct (node_deref s1 id) as [[s2 ns2]|] eqn:ND; simpl in E; [|discriminate]. inversion E; subst. clear E.
+  apply cov_count.
+  assert (C1 : CovOne s1 hi (c_rm c (hn_key n))). { unfold s1, n1, c_rm. apply cov_mark; auto. }
+  assert (G1 : GoodP s1 ({| hi_node := Some id; hi_bucket := b |} :: P)).
+  { constructor; simpl.
+    - apply (p_nodup _ _ G).
+    - intros y Hy. change (In y (linked s)) in Hy. unfold s1. simpl. rewrite deref_store by auto. rewrite pcount_cons. unfold parked_on. simpl.
+      destruct (p_node _ _ G y Hy) as [m [M1 [M2 M3]]]. destruct (Nat.eqb id y) eqn:E1.
+      + apply Nat.eqb_eq in E1. subst y. rewrite N1 in M1. inversion M1; subst m. exists n1. split; auto.
+        unfold base in *. simpl. rewrite N2 in M2. split; auto; try lia.
+      + exists m. auto.
+    - intros h y [Hh|Hh] Hn. subst h. simpl in *. inversion Hn; subst. exact Hin. apply (p_iter _ _ G h y Hh Hn). }
+  eapply (cov_unpark s1 P _ id s2 ns hi _ G1 eq_refl ND HP C1).
+Qed.
+
+Lemma cov_notify_add : forall e1 e2 e3 s P k fn ev ud s' z hi c, GoodP s P ->
+  h_notify_add v_fixed hf e1 e2 e3 s k fn ev ud = Ok (s', z) -> CovOne s hi c -> CovOne s' hi c.
+Proof.
+  intros e1 e2 e3 s P k fn ev ud s' z hi c G E CV. unfold h_notify_add in E. destruct k as [kk|].
+  - destruct (has_bit ev EV_FREE). { inversion E; subst; auto. }
+    destruct (find_node v_fixed (h_heap s) (bucket s (bucket_ix hf s kk)) kk) as [r|] eqn:F; simpl in E; [|discriminate].
+    generalize (find_node_spec _ _ _ _ (bucket_all_live s P _ G) F). destruct r as [id|].
+    2:{ intros _. inversion E; subst; auto. }
+    intros [Hin [n [N1 [N2 N3]]]]. rewrite N1 in E. simpl in E.
+    destruct (nsub_conflict (hn_subs n) fn ev ud); inversion E; subst; auto.
+    apply cov_same_view; auto. eapply same_view_store; eauto.
+  - destruct (nsub_conflict (h_subs s) fn ev ud); inversion E; subst; auto. destruct CV as [A B C]. constructor; auto.
+Qed.
+
+Lemma cov_notify_del : forall e2 s P k fn ev ud s' z hi c, GoodP s P ->
+  h_notify_del v_fixed hf e2 s k fn ev ud = Ok (s', z) -> CovOne s hi c -> CovOne s' hi c.
+Proof.
+  intros e2 s P k fn ev ud s' z hi c G E CV. unfold h_notify_del in E. destruct k as [kk|].
+  - destruct (find_node v_fixed (h_heap s) (bucket s (bucket_ix hf s kk)) kk) as [r|] eqn:F; simpl in E; [|discriminate].
+    generalize (find_node_spec _ _ _ _ (bucket_all_live s P _ G) F). destruct r as [id|].
+    2:{ intros _. inversion E; subst; auto. }
+    intros [Hin [n [N1 [N2 N3]]]]. rewrite N1 in E. simpl in E.
+    destruct (existsb (nsub_match fn ev ud) (hn_subs n)); inversion E; subst; auto.
+    apply cov_same_view; auto. eapply same_view_store; eauto.
+  - destruct (existsb (nsub_match fn ev ud) (h_subs s)); inversion E; subst; auto. destruct CV as [A B C]. constructor; auto.
+Qed.
+
+Lemma cov_foreach_loop : forall fuel s P hit stop calls acc nacc s' hi' l ns hi c, GoodP s (hit :: P) ->
+  foreach_loop v_fixed fuel s hit stop calls acc nacc = Ok (s', hi', l, ns) -> In hi P -> CovOne s hi c ->
+  CovOne s' hi c /\ GoodP s' (hi' :: P).
+Proof.
+  induction fuel; simpl; intros. discriminate.
+  destruct (iter_next_safe s P hit H) as [s1 [hi1 [r [ns1 [E [G1 _]]]]]]. rewrite E in H0. simpl in H0.
+  assert (C1 : CovOne s1 hi c) by (apply (cov_next_other s P hit s1 hi1 r ns1 hi c H E H1 H2)).
+  destruct r as [e|].
+  - destruct (negb (Nat.eqb stop 0) && Nat.leb stop (S calls)).
+    + inversion H0; subst. auto.
+    + eapply IHfuel; eauto.
+  - inversion H0; subst. auto.
+Qed.
+
+Lemma cov_foreach : forall s P stop s' l ns hi c, GoodP s P -> h_foreach v_fixed s stop = Ok (s', l, ns) -> In hi P ->
+  CovOne s hi c -> CovOne s' hi c.
+Proof.
+  unfold h_foreach. intros.
+  destruct (foreach_loop v_fixed (S (S (length (h_heap s)))) s h_iter_create stop 0 [] []) as [[[[s1 hi1] l1] ns1]|] eqn:E; simpl in H0; try discriminate.
+  destruct (cov_foreach_loop _ _ P _ _ _ _ _ _ _ _ _ hi c (goodp_none_add s P 0 H) E H1 H2) as [C1 G1].
+  destruct (h_iter_free v_fixed s1 hi1) as [[s2 ns2]|] eqn:F; simpl in H0; try discriminate. inversion H0; subst.
+  eapply cov_free_other; eauto.
+Qed.
 End Cov.
